@@ -1,8 +1,12 @@
 (* Record types of the generated table Gen/Globals.v (translate/globals.go). *)
 From KV Require Export Base.Prelude.
 
-Inductive gkind := GMutable | GSync (ty : string).
-Record gvar := mkGvar { g_name : string; g_kind : gkind }.
+Inductive gkind :=
+| GMutable                  (* stored to / updated through / address-taken outside package initialisers *)
+| GSync (ty : string)       (* sync.Mutex / RWMutex / Once / WaitGroup *)
+| GRefUsed (reach : bool).  (* initialised once, but the reference it holds is passed to calls / has methods called
+                               on it outside initialisers (reach: in a function reachable from krusty.Run) *)
+Record gvar := mkGvar { g_name : string; g_kind : gkind; g_type : string }.
 
 Inductive akind :=
 | ARead        (* load of the variable / field *)
